@@ -10,10 +10,13 @@ from fractions import Fraction
 from harness.common import *
 import vlib
 
-LEVEL_TEXT = ('Lean 4 theorems: Noll j -> (n, m) is valid (|m| <= n, n-|m| even, even j <-> cosine/+, odd j <-> sine/-) and a bijection '
+LEVEL_TEXT = ('Tie: the coefficient formula / guard / term count / exponents of R, the decision tree and leaf products of zernike, the pieces of '
+              'zernike_index (row-search argument, k, r, sign, seeds, loop, append step), the default origin of zernike_coordinates and helper.mesh are '
+              're-translated from the source on every run (Gen/ZernikeR, Gen/Mesh); the model and the driver are built from them. '
+              'Lean 4 theorems: Noll j -> (n, m) is valid (|m| <= n, n-|m| even, even j <-> cosine/+, odd j <-> sine/-) and a bijection '
               'onto the valid (n, m) (explicit inverse, both round trips, all j >= 1); the literal list-and-negative-index code of '
               'zernike_index equals the closed form for every j >= 1 and its row search is the Noll row in exact real arithmetic; '
-              'R_n^m(1) = 1 for all n <= 40; the model\'s mode over R is N * R_n^|m|(rho) * A_m(theta) with N^2 = n+1 or 2(n+1) and '
+              'R_n^m(1) = 1 for all n <= 40 and the regenerated coefficient is exact and equals the textbook binomial form (n <= 40; R_n^n = rho^n, R_2^0 = 2rho^2-1); the model\'s mode over R is N * R_n^|m|(rho) * A_m(theta) with N^2 = n+1 or 2(n+1) and '
               'A_m = 1 / cos(m theta) / sin(m theta); the exact rational Gram table equals the radial integrals of the model\'s '
               'polynomials (n, n\' <= 20); angular integrals over a period; and hence ORTHONORMALITY of the model\'s modes: the polar '
               'mean (1/pi) int int Z_j Z_j\' rho drho dtheta — and, by the polar change of variables, the area mean over the unit disk — is 1 if j = j\' else 0 for all pairs among the first 231 modes; the default '
@@ -24,7 +27,7 @@ LEVEL_NOTE = ('Trusted: Lean kernel, float sqrt/cos/sin/atan2 (model run at Floa
               'np.angle/np.abs/np.max as modelled, generator coverage. Known finding KF-C11-nan-outside-mask: the code multiplies by the mask, so '
               'non-finite coordinates outside the mask (or a one-sample mask) give NaN instead of 0. Unproven clauses: |Z| <= 1 unnormalised '
               '(sampled by the oracle); orthonormality for 20 < n <= 40 only in the thorough tier; the float sqrt/ceil row search of zernike_index beyond the sampled range of j.')
-TECHNIQUE = 'Lean 4 proof (omega/induction, decide +kernel exact rational tables) + hand model with differential correspondence'
+TECHNIQUE = 'Lean 4 proof (omega/induction, Mathlib integrals, decide +kernel exact tables) over translator-regenerated formulas + hand model with differential correspondence'
 GEN = ['ZernikeR', 'Mesh']
 OPS = ['C11']
 RULE = ('cases: every Noll index 1..861 (all 41 rows n <= 40) against zernike_index; every valid (n, m) with n <= 40 for the radial '
